@@ -85,7 +85,7 @@ Print Assumptions disallowed_view_checker.
    overlap rule, distances, HMAT initiators, the CPU-less fix-up, memory-side caches) as a function of the
    contents of the files and directories it reads, composed with the parser models above.  It is tied request
    by request to the real backend on every traced load (checks/c18.py).  The theorems hold for EVERY view: any
-   file contents, any directory listing, any configuration.  [Unmodelled] answers (KNL quirk, NVIDIA GPU nodes,
+   file contents, any directory listing, any configuration.  [Unmodelled] answers (KNL quirk,
    indexes too large for the model, the distance over-read) are outside them. *)
 
 (* Totality: the model answers on every view (structural recursion only: no fuel to exhaust), and the cpumap
@@ -116,11 +116,13 @@ Proof. intros v l pre r post H. exact (mchain_ok_memcache l pre r post (requests
 Print Assumptions node_memcache_chain.
 
 (* Whatever the HMAT initiators and the distance-based fix-up of CPU-less nodes do, the cpuset of every request
-   is made of cpumaps of nodes that were created: nothing outside their union is ever assigned. *)
+   is made of cpusets of the nodes as they are when the trees are built (final_nodes: the cpumaps of the created
+   nodes, except that a node that is NVIDIA GPU memory has the local cpus of its GPU): nothing outside their union
+   is ever assigned. *)
 Theorem node_cpusets_from_created_nodes : forall v l,
   linux_node_requests v = Requests l ->
   exists indexes, (l = [] \/ list_nodes v = inl (Some indexes)) /\
-    forall r, In r l -> sub (r_cs r) (created_union (create_nodes v indexes)).
+    forall r, In r l -> sub (r_cs r) (created_union (final_nodes v indexes)).
 Proof. exact requests_within_created. Qed.
 Print Assumptions node_cpusets_from_created_nodes.
 
@@ -131,30 +133,24 @@ Theorem node_cpumaps_disjoint : forall v indexes,
 Proof. exact create_nodes_disjoint. Qed.
 Print Assumptions node_cpumaps_disjoint.
 
-(* "The os indexes of the NUMA requests are pairwise distinct" is FALSE for hostile directory listings: two entries
-   denoting the same index ("node0", "node00") make list_sysfsnode count two nodes for one bit, the spare slot of
-   the calloc'ed index array reads 0, and node 0 is requested twice when its cpumap is empty. *)
-Theorem node_os_distinct_refuted : exists v a b, linux_node_requests v = Requests [a; b] /\
-  r_type a = HWLOC_OBJ_NUMANODE /\ r_type b = HWLOC_OBJ_NUMANODE /\ r_os a = r_os b.
-Proof. exists dup_view. exact dup_view_requests. Qed.
-Print Assumptions node_os_distinct_refuted.
-
-(* ... and holds whenever the listed indexes are pairwise distinct (always the case for node/online, and for any
-   directory whose entries denote distinct numbers): no two NUMA requests have the same os index. *)
-Theorem node_os_distinct_partial : forall v indexes l,
-  list_nodes v = inl (Some indexes) -> NoDup indexes ->
-  linux_node_requests v = Requests l -> NoDup (numa_os l).
-Proof. exact numa_requests_distinct. Qed.
-Print Assumptions node_os_distinct_partial.
+(* No two NUMA requests have the same os index: the indexes listed by list_sysfsnode are the members of a set
+   (node/online, or the distinct numbers denoted by the directory entries - since /repo bba5c6e; before that fix two
+   entries such as "node1" and "node 1" made the backend create node 1 twice, a real invalid topology found by the
+   node-mutation stream), and each created node is requested exactly once. *)
+Theorem node_os_distinct : forall v l, linux_node_requests v = Requests l -> NoDup (numa_os l).
+Proof.
+  intros v l H. destruct (requests_inv v l H) as [->|[indexes [dist [L _]]]]; [constructor|].
+  exact (numa_requests_distinct v indexes l L (list_nodes_nodup v indexes L) H).
+Qed.
+Print Assumptions node_os_distinct.
 
 (* The order of the NUMA requests: first the nodes whose cpumap is not empty, in index-array order, then the CPU-less
    ones, in index-array order ("non-empty cpumap first" of look_sysfsnode), each created node exactly once. *)
 Theorem node_request_order : forall v indexes l,
   list_nodes v = inl (Some indexes) -> linux_node_requests v = Requests l ->
-  numa_os l = nonzero_os (create_nodes v indexes) ++ zero_os (create_nodes v indexes).
+  numa_os l = nonzero_os (final_nodes v indexes) ++ zero_os (final_nodes v indexes).
 Proof. exact numa_requests_order. Qed.
 Print Assumptions node_request_order.
 
-Example node_os_distinct_nonvacuous : exists v indexes l,
-  list_nodes v = inl (Some indexes) /\ NoDup indexes /\ linux_node_requests v = Requests l /\ numa_os l = [0; 2; 1].
-Proof. destruct distinct_view_meets as [H1 [H2 [l [H3 H4]]]]. eexists _, _, _. eauto. Qed.
+Example node_os_distinct_nonvacuous : exists v l, linux_node_requests v = Requests l /\ numa_os l = [0; 2; 1].
+Proof. destruct distinct_view_meets as [_ [_ [l [H3 H4]]]]. eexists _, _. eauto. Qed.
